@@ -5,6 +5,7 @@ CONSTANTS
   FailCs = {}
   FailNs = {}
   PruneTs = {}
+  RgsSnaps = {}
   WithReload = FALSE
 CONSTRAINT Bound
 VIEW View
